@@ -214,6 +214,14 @@ pub fn record_cone(rng: &mut Rng, count: u64, out: &mut Out) {
       let lon = (rng.below(4) as f64 * HALF_PI + r * rng.range(-6.0, 6.0)).rem_euclid(TWO_PI);
       (lon, lat, r, depth, 0u8, "corner")
     } else { (lon, lat, r, depth, dd, class) };
+    // class "cellcentre": a cone centred bit for bit on the centre of a cell as the crate computes it, smaller or larger than the cell
+    let (lon, lat, r, depth, dd, class) = if !corner && rng.below(8) == 0 {
+      let depth = rng.below(30) as u8;
+      let n = 1u64 << depth;
+      let c = if rng.bool() { crate::sc_nested::special_cells(rng, depth) } else { Cell { b: rng.below(12) as u8, i: rng.below(n) as u32, j: rng.below(n) as u32 } };
+      let (lo, la) = nested::get_or_create(depth).center(hash_of_cell(depth, c));
+      (lo, la, (cell_size(depth) * rng.range(0.02, 3.0)).min(3.0), depth, if rng.below(4) == 0 { (1 + rng.below(2) as u8).min(29 - depth) } else { 0 }, "cellcentre")
+    } else { (lon, lat, r, depth, dd, class) };
     if let Some(ev) = cone_event(rng, depth, dd, lon, lat, r, if class == "uniform" { rclass } else { class }) { out.emit(ev); }
   }
 }
@@ -421,6 +429,16 @@ pub fn record_c13(rng: &mut Rng, count: u64, out: &mut Out) {
     let pa = *rng.pick(&[0.0, PI / 4.0, HALF_PI, 3.0 * PI / 4.0, PI - 1e-9, rpa]);
     let depth = gen_depth(rng, a);
     let dd = if rng.below(3) == 0 { (1 + rng.below(3) as u8).min(29 - depth) } else { 0 };
+    // class "cellcentre": a thin ellipse, small with respect to the cell, centred bit for bit on the centre of a cell as the
+    // crate computes it (degenerate case of the overlap tests: distance 0 between the ellipse centre and a candidate cell centre)
+    let (lon, lat, a, b, depth, dd, class) = if rng.below(7) == 0 {
+      let depth = rng.below(30) as u8;
+      let n = 1u64 << depth;
+      let c = if rng.bool() { crate::sc_nested::special_cells(rng, depth) } else { Cell { b: rng.below(12) as u8, i: rng.below(n) as u32, j: rng.below(n) as u32 } };
+      let (lo, la) = nested::get_or_create(depth).center(hash_of_cell(depth, c));
+      let a = (cell_size(depth) * rng.range(0.02, 2.5)).min(1.5);
+      (lo, la, a, a * *rng.pick(&[0.3, 0.1, 0.01, 1.0]), depth, if rng.below(4) == 0 { (1 + rng.below(2) as u8).min(29 - depth) } else { 0 }, "cellcentre")
+    } else { (lon, lat, a, b, depth, dd, class) };
     if let Some(ev) = ellipse_event(rng, depth, dd, lon, lat, a, b, pa, class) { out.emit(ev); }
   }
 }
